@@ -226,8 +226,9 @@ Record inst := { i_key : ikey;
                  i_xrefs : list (string * Z);
                  i_cache : cache }.
 
-Record state := { st_defs : defs; st_live : list inst; st_next : N }.
-Definition init (d : defs) : state := {| st_defs := d; st_live := []; st_next := 0%N |}.
+(** [st_glob]: the references of the model itself (last link of every refs chain) *)
+Record state := { st_defs : defs; st_glob : list (string * Z); st_live : list inst; st_next : N }.
+Definition init (d : defs) : state := {| st_defs := d; st_glob := []; st_live := []; st_next := 0%N |}.
 
 Definition istep_eqb (a b : istep) : bool := path_eqb (fst a) (fst b) && zs_eqb (snd a) (snd b).
 Fixpoint isteps_eqb (a b : list istep) : bool :=
@@ -259,7 +260,7 @@ Arguments Ok {A} _.
 Arguments Fail {A}.
 Arguments OutOfFuel {A}.
 
-Record ectx := { ec_snap : defs; ec_args : layers; ec_xrefs : list (string * Z) }.
+Record ectx := { ec_snap : defs; ec_args : layers; ec_xrefs : list (string * Z); ec_glob : list (string * Z) }.
 
 Fixpoint lookup_layers (x : string) (ls : layers) : option Z :=
   match ls with
@@ -267,14 +268,18 @@ Fixpoint lookup_layers (x : string) (ls : layers) : option Z :=
   | l :: t => match alookup x l with Some v => Some v | None => lookup_layers x t end
   end.
 (** refs chain of a dynamic space: arguments (inner first) > references returned by
-    the parameter formula (root of the instance only) > references of the base *)
+    the parameter formula (root of the instance only) > references of the base >
+    references of the model *)
 Definition ref_lookup (E : ectx) (n : snode) (cp : path) (x : string) : option Z :=
   match lookup_layers x (ec_args E) with
   | Some v => Some v
   | None =>
       match (match cp with [] => alookup x (ec_xrefs E) | _ => None end) with
       | Some v => Some v
-      | None => alookup x (sn_refs n)
+      | None => match alookup x (sn_refs n) with
+                | Some v => Some v
+                | None => alookup x (ec_glob E)
+                end
       end
   end.
 (** a name read as a value: locals, then the namespace cells > refs > spaces
@@ -441,8 +446,8 @@ with sp_call (fuel : nat) (E : ectx) (cp : path) (c : string) (vs : list Z) {str
       end
   end.
 
-Definition ectx_of (r : inst) : ectx :=
-  {| ec_snap := i_snap r; ec_args := i_args r; ec_xrefs := i_xrefs r |}.
+Definition ectx_of (g : list (string * Z)) (r : inst) : ectx :=
+  {| ec_snap := i_snap r; ec_args := i_args r; ec_xrefs := i_xrefs r; ec_glob := g |}.
 
 (** ** the context of an instance derived from the CURRENT definitions alone
     (substitution semantics): re-run the parameter formulas along the key *)
@@ -473,9 +478,10 @@ Fixpoint walk (d : defs) (base : path) (outer : layers) (xr : list (string * Z))
 Definition instantiate (d : defs) (k : ikey) := walk d (fst k) [] [] (snd k).
 
 (** value of cells [c] of the (child [cp] of the) instance [k] under definitions [d] *)
-Definition spec_value (fuel : nat) (d : defs) (k : ikey) (cp : path) (c : string) (vs : list Z) : res Z :=
+Definition spec_value (fuel : nat) (d : defs) (g : list (string * Z)) (k : ikey) (cp : path) (c : string)
+  (vs : list Z) : res Z :=
   match instantiate d k with
-  | Some (b, a, x) => sp_call fuel {| ec_snap := subtree b d; ec_args := a; ec_xrefs := x |} cp c vs
+  | Some (b, a, x) => sp_call fuel {| ec_snap := subtree b d; ec_args := a; ec_xrefs := x; ec_glob := g |} cp c vs
   | None => Fail
   end.
 
@@ -541,6 +547,8 @@ Inductive op :=
 | ONewSpace (q : path) (f : option pform)
 | ODelSpace (q : path)
 | OSetParams (p : path) (f : option pform)
+| OSetGlobal (x : string) (v : Z)                                 (* model.x = v *)
+| ODelGlobal (x : string)                                         (* del model.x *)
 | OClearItems (p : path)                                          (* S.clear_items() *)
 | ODelItem (k : ikey).                                            (* del S[..] *)
 
@@ -579,13 +587,26 @@ Definition with_cache (r : inst) (c : cache) : inst :=
      i_args := i_args r; i_xrefs := i_xrefs r; i_cache := c |}.
 
 Definition set_live (st : state) (l : list inst) : state :=
-  {| st_defs := st_defs st; st_live := l; st_next := st_next st |}.
+  {| st_defs := st_defs st; st_glob := st_glob st; st_live := l; st_next := st_next st |}.
 Definition edit (st : state) (d : defs) (l : list inst) : state :=
-  {| st_defs := d; st_live := l; st_next := st_next st |}.
+  {| st_defs := d; st_glob := st_glob st; st_live := l; st_next := st_next st |}.
+(** a change of the model's references reaches the namespace of every static space: every ItemSpace goes *)
+Definition set_glob (st : state) (g : list (string * Z)) : state :=
+  {| st_defs := st_defs st; st_glob := g; st_live := []; st_next := st_next st |}.
 
 Definition parent_of (q : path) : path := removelast q.
 Definition name_free (n : snode) (d : defs) (p : path) (x : string) : bool :=
   negb (amem x (sn_cells n)) && negb (amem x (sn_refs n)) && negb (dmem (p ++ [x]) d).
+
+(** the container of a new space: the model itself, or an existing space in which the name is free *)
+Definition parent_free (d : defs) (p : path) (x : string) : bool :=
+  match p with
+  | [] => true
+  | _ => match dlookup p d with
+         | Some n => negb (amem x (sn_cells n)) && negb (amem x (sn_refs n))
+         | None => false
+         end
+  end.
 
 Definition step (fuel : nat) (st : state) (o : op) : state * out :=
   let d := st_defs st in
@@ -605,7 +626,7 @@ Definition step (fuel : nat) (st : state) (o : op) : state * out :=
                   match item_ctx d f defbase outer key with
                   | None => (st, OFail)
                   | Some (b, a, x) =>
-                      ({| st_defs := d;
+                      ({| st_defs := d; st_glob := st_glob st;
                           st_live := {| i_key := newkey key; i_uid := st_next st; i_base := b;
                                         i_snap := subtree b d; i_args := a; i_xrefs := x;
                                         i_cache := [] |} :: l;
@@ -619,7 +640,7 @@ Definition step (fuel : nat) (st : state) (o : op) : state * out :=
       | None => (st, ODeleted)
       | Some r =>
           if dmem cp (i_snap r) then
-            match ev_call fuel (ectx_of r) cp c args (i_cache r) with
+            match ev_call fuel (ectx_of (st_glob st) r) cp c args (i_cache r) with
             | (Ok v, c') => (set_live st (replace_inst (with_cache r c') l), OVal v)
             | (Fail, c') => (set_live st (replace_inst (with_cache r c') l), OFail)
             | (OutOfFuel, _) => (st, OFuel)
@@ -640,7 +661,7 @@ Definition step (fuel : nat) (st : state) (o : op) : state * out :=
       | None => (st, ODeleted)
       | Some r =>
           if dmem cp (i_snap r)
-          then (if child_ok (ectx_of r) cp [] X then (st, ODone) else (st, OFail))
+          then (if child_ok (ectx_of (st_glob st) r) cp [] X then (st, ODone) else (st, OFail))
           else (st, ODeleted)
       end
   | OSetFormula p c cd =>
@@ -697,20 +718,10 @@ Definition step (fuel : nat) (st : state) (o : op) : state * out :=
           if existsb (fun e => is_prefix q (fst e)) d then (st, ORejected)
           else
             let p := parent_of q in
-            let x := last q EmptyString in
             let nd := {| sn_params := f; sn_cells := []; sn_refs := [] |} in
-            match p with
-            | [] => (edit st (d ++ [(q, nd)]) l, ODone)
-            | _ =>
-                match dlookup p d with
-                | Some n =>
-                    if negb (amem x (sn_cells n)) && negb (amem x (sn_refs n))
-                    then (edit st (d ++ [(q, nd)])
-                               (del_where (fun r => own p r || has_dynsub p r) l), ODone)
-                    else (st, ORejected)
-                | None => (st, ORejected)
-                end
-            end
+            if parent_free d p (last q EmptyString)
+            then (edit st (d ++ [(q, nd)]) (del_where (fun r => own p r || has_dynsub p r) l), ODone)
+            else (st, ORejected)
       end
   | ODelSpace q =>
       if dmem q d then
@@ -724,6 +735,10 @@ Definition step (fuel : nat) (st : state) (o : op) : state * out :=
                         (del_where (fun r => own p r || has_dynsub p r) l), ODone)
       | None => (st, ORejected)
       end
+  | OSetGlobal x v =>
+      if dmem [x] d then (st, ORejected) else (set_glob st (aset x v (st_glob st)), ODone)
+  | ODelGlobal x =>
+      if amem x (st_glob st) then (set_glob st (adel x (st_glob st)), ODone) else (st, ORejected)
   | OClearItems p =>
       if dmem p d then (set_live st (del_where (own p) l), ODone) else (st, ORejected)
   | ODelItem k =>
